@@ -3,13 +3,11 @@ package main
 import (
 	"encoding/json"
 	"fmt"
-	"io"
 	"os"
 	"reflect"
 	"regexp"
 	"runtime"
 	"runtime/debug"
-	"runtime/pprof"
 	"strings"
 	"sync/atomic"
 	"time"
@@ -35,6 +33,43 @@ import (
 //     collections; the same value is re-encoded later and must give the same text.
 func init() {
 	workloads["C10"] = runC10
+	witnesses["B44"] = func() (bool, string) {
+		// a full [3]*int at the tail of an object that fills the 640-byte size class, decoded while
+		// collections are running: the generated code must not hand the write barrier a pointer past the array
+		type tail struct {
+			Pad [76]int64 `json:"-"`
+			A   [3]*int   `json:"a"`
+		}
+		stop := make(chan struct{})
+		defer close(stop)
+		go func() {
+			for {
+				select {
+				case <-stop:
+					return
+				default:
+					runtime.GC()
+				}
+			}
+		}()
+		old := debug.SetGCPercent(1)
+		defer debug.SetGCPercent(old)
+		bad := ""
+		for i := 0; i < 60000 && bad == ""; i++ {
+			func() {
+				defer func() {
+					if r := recover(); r != nil {
+						bad = fmt.Sprint(r)
+					}
+				}()
+				v := new(tail)
+				if err := sonic.UnmarshalString(`{"a":[1,2,3]}`, v); err != nil || v.A[2] == nil || *v.A[2] != 3 {
+					bad = fmt.Sprintf("err=%v value=%v", err, v.A)
+				}
+			}()
+		}
+		return bad != "", "60000 decodes of a full tail array under forced collections: " + bad
+	}
 }
 
 var c10LastZero = regexp.MustCompile(`(^|[^0-9.eE+\-])-?0$`)
@@ -204,13 +239,10 @@ func runC10(c *Ctx) {
 	}
 	if stress == "stack" {
 		// SIGPROF at a high rate (tracebacks start at arbitrary PCs) and whole-process stack dumps
+		// (no reader: the runtime drops samples once its buffer is full, the signal handler still
+		// unwinds the interrupted stack on every tick)
 		runtime.SetCPUProfileRate(4000)
-		devnull, _ := os.OpenFile(os.DevNull, os.O_WRONLY, 0)
-		stderr := os.Stderr
-		os.Stderr = devnull // StartCPUProfile complains that the rate is already set
-		pprof.StartCPUProfile(io.Discard)
-		os.Stderr = stderr
-		defer pprof.StopCPUProfile()
+		defer runtime.SetCPUProfileRate(0)
 		go func() {
 			buf := make([]byte, 1<<20)
 			for {
